@@ -58,7 +58,7 @@ def main(extra_checks=None, extra_na=None):
      'version': 1,
      'setup_cmd': 'python3 run/vp.py env',
      'hooks': {'guard': 'COVESA_OPEN1722_VERIF', 'enable': 'goto-cc -DCOVESA_OPEN1722_VERIF (no source hooks exist: contracts are attached to re-declarations in /verif/contracts and loop contracts come from /verif/loops via --loop-contracts-file)',
-               'baseline_off_cmd': 'cmake --build /repo/_build && ctest --test-dir /repo/_build -j8 --timeout 900', 'source_commits': [], 'add_only': True},
+               'baseline_off_cmd': 'cmake -G Ninja -DUNIT_TESTING=on -B /repo/_build -S /repo && cmake --build /repo/_build && ctest --test-dir /repo/_build -j8 --timeout 900', 'source_commits': [], 'add_only': True},
      'engines': [{'name': 'cbmc-contracts', 'path': 'run/vp.py', 'serves_properties': sorted(checks), 'kind_free_text': 'CBMC 6.11 code contracts (DFCC): per-function enforce, callee replace, loop contracts'}],
      'checks': [], 'not_applicable': [],
      'notes': 'See DESIGN.md. Genuine defects repaired in /repo are listed in known_findings.json (fixed:).'}
